@@ -29,9 +29,12 @@ def run(ctx):
     args = ["-thorough"] if not ctx.quick else []
     trace, _ = routerfam.run_mode(ctx, drv, "c07", args)
     routerfam.validate(ctx, trace, only=["Inv_C07_", "Unconsumable"], require_events=600)
+    # the same scenarios served by the second-level cache alone (a minimal RESP3 server stands in for redis)
+    trace, _ = routerfam.run_mode(ctx, drv, "c07-redis", args + ["-redis", "only"])
+    routerfam.validate(ctx, trace, only=["Inv_C07_", "Unconsumable"], require_events=600)
     ctx.assumptions += [
         "memory cache component: interleavings are enumerated in MemCache.tla (2-3 callers, 3 entry objects, 3 buffers, 2-3 versions per key); the real cache is sampled (32 goroutines, 600 keys on a 24 KB cache, 1-2.5 s expiries), with poisoned and with pass-through buffer pools",
-        "memory cache only: the redis second-level cache needs a server and is not exercised",
+        "the redis second-level cache talks to a minimal RESP3 server of the harness (HELLO, CLIENT, PING, GET, SET NX PX), not to a real redis; there it is the only cache (no lookup hook on that path: only the black-box clauses apply)",
         "must-hit clause is checked only outside the refresh window and with >1 s (+50 ms margin) of lifetime left, on an 8 MB cache (ample capacity)",
         "the key bytes seen by the hook are compared with the specification's KeyBytes(name, class, type, group)",
     ]
